@@ -58,7 +58,7 @@ PStep(ps, prev, ev) ==
 
 (* ---------- judgement of the whole attempt ---------- *)
 ExpectedMode(cfg, init) == IF cfg.perms # 0 THEN cfg.perms
-                           ELSE IF init.dest.st = "old" THEN init.dest.mode
+                           ELSE IF init.dest.st # "absent" THEN init.dest.mode     \* the file being replaced
                            ELSE cfg.umask_default          \* 0o666 & ~umask, computed by the harness
 
 FinalWhy(cfg, init, total, ps, last, raised, body_raised) ==
@@ -103,5 +103,8 @@ Verdict(tr) ==
        IF f # "" THEN [why |-> f, at |-> Len(tr.ev) + 1]
        ELSE IF tr.raised /\ tr.retried /\ RetryMustSucceed(tr.cfg, init, j.last, j.ps) /\ ~tr.retry_ok
             THEN [why |-> "retry-after-failure-fails", at |-> Len(tr.ev) + 2]
+       (* the retry is a save of its own: permission precedence applies to it with the destination as the failed attempt left it *)
+       ELSE IF tr.raised /\ tr.retried /\ tr.retry_ok /\ tr.retry_mode # ExpectedMode(tr.cfg, [dest |-> j.last.dest])
+            THEN [why |-> "retry-wrong-permissions", at |-> Len(tr.ev) + 2]
        ELSE [why |-> "", at |-> 0]
 =============================================================================
